@@ -160,7 +160,7 @@ contract('DiskStorage.write', props=['C15', 'C04'], yields=True,
          locals={'meta': 'DMeta'}, **DS)
 
 for _m, _field in (('set_timestamp', 'ts'), ('increment_attempts', 'att')):
-    contract('DiskStorage.' + _m, props=['C15', 'C04'], yields=True,
+    contract('DiskStorage.' + _m, props=['C15', 'C04', 'C03'], yields=True,
              params={'self': 'DiskStorage', 'id': 'Str', 'timestamp': 'Real'} if _m == 'set_timestamp'
              else {'self': 'DiskStorage', 'id': 'Str'},
              returns=None if _m == 'set_timestamp' else 'Int',
@@ -195,8 +195,9 @@ contract('DiskStorage.set_recipients_delivered', props=['C03', 'C15', 'C04'], yi
              # C03: exactly the stored positions of the settled recipients are added to the delivered marks --
              # stated separately for the first marking round of a message and for every later round
              'id in self.ops.meta_hd',
+             # (first round: get() returned the stored envelope as it is, so the stored positions are the given ones)
              'implies(old(NOMARKS(self.ops, id)), forall(range(0, self.ops.env_n[id]), lambda q: DELIV(self.ops, id, q) == '
-             '       exists(range(0, self.lm_n[id]), lambda p: IN_IDX(p, rcpt_indexes) and self.lm[id][p] == q)))',
+             '       IN_IDX(q, rcpt_indexes)))',
              'implies(old(NOMARKS(self.ops, id)), DISK_wf(self, id))',
              'implies(not old(NOMARKS(self.ops, id)), forall(range(0, self.ops.env_n[id]), lambda q: DELIV(self.ops, id, q) == '
              '       (old(DELIV(self.ops, id, q)) or exists(range(0, self.lm_n[id]), lambda p: IN_IDX(p, rcpt_indexes) and self.lm[id][p] == q))))',
@@ -313,14 +314,16 @@ contract('AioFile._write_piece', kind='extern', yields=True,
          notes='AioFile._write_piece (pyaio aio_write + AsyncResult): writes at most chunk_size bytes of data at '
                '`offset`, returns the number written (> 0) or raises IOError; assumed at its call site')
 
-FS_CALLS = ('mkstemp', 'AioFile._write_piece', 'os.rename', 'os.open', 'os.close')
+FS_CALLS = ('mkstemp', 'AioFile._write_piece', 'os.rename', 'os.open', 'os.close', 'os.remove', 'os.unlink')
+# ... and no file that existed under a final name when dump() was entered is missing
+NOLOSS = 'forall(Str, lambda x: implies(old(x in FSYS.final_has), x in FSYS.final_has))'
 contract('AioFile.dump', props=['C04'], yields=True, module=M,
          params={'self': 'AioFile', 'data': 'Bytes'},
          requires=[NOPARTIAL],
          # crash points: before every file-system effect no file under a final name is incomplete ...
-         call_requires=dict([(k, [NOPARTIAL]) for k in FS_CALLS] + [
+         call_requires=dict([(k, [NOPARTIAL, NOLOSS]) for k in FS_CALLS] + [
              # ... and the rename that publishes the file happens only when every byte is in the temporary file
-             ('os.rename', [NOPARTIAL, 'filename is not None and FSYS.tmp[cast(filename, Str)] == data'])]),
+             ('os.rename', [NOPARTIAL, NOLOSS, 'filename is not None and FSYS.tmp[cast(filename, Str)] == data'])]),
          ensures=['self.path in FSYS.final_has', 'FSYS.final[self.path] == data', NOPARTIAL,
                   'forall(Str, lambda x: implies(x != self.path, FSYS.final[x] == old(FSYS.final)[x] '
                   '       and (x in FSYS.final_has) == old(x in FSYS.final_has)))'],
@@ -339,8 +342,11 @@ contract('AioFile.dump', props=['C04'], yields=True, module=M,
 # surfaces as OSError (load() skips exactly that), and the delete helpers never raise.
 klass('AioFileView', fields={'path': 'Str'})
 extern('os.path.join', params={'a': 'Str', 'b': 'Str'}, returns='Str', pure=True)
-extern('os.remove', params={'path': 'Str'}, raises={'OSError': []},
-       notes='os.remove: FileNotFoundError / PermissionError are OSErrors')
+for _f in ('os.remove', 'os.unlink'):
+    extern(_f, params={'path': 'Str'}, modifies=['FSYS.final_has'],
+           ensures=['FSYS.final_has == store(old(FSYS.final_has), path, False)'],
+           raises={'OSError': ['FSYS.final_has == old(FSYS.final_has)']},
+           notes='os.remove / os.unlink: the file under that (final) name is gone; FileNotFoundError / PermissionError are OSErrors')
 extern('AioFile.__init__', params={'self': 'AioFile', 'path': 'Str', 'tmp_dir': 'Opt[Str]'}, defaults={'tmp_dir': 'None'},
        modifies=['self.path', 'self.tmp_dir'], ensures=['self.path == path'])
 extern('AioFile.pickle_load', params={'self': 'AioFile'}, returns='Any', yields=True,
@@ -353,7 +359,7 @@ for _m in ('read_meta', 'read_env'):
              params={'self': 'DiskOps', 'id': 'Str'}, returns='Any', raises={'OSError': []}, modifies=['fresh'])
 for _m in ('delete_env', 'delete_meta'):
     contract('DiskOps.%s#raises' % _m, qual='DiskOps.' + _m, module=M, props=['C04', 'C15'],
-             params={'self': 'DiskOps', 'id': 'Str'}, modifies=['fresh'])
+             params={'self': 'DiskOps', 'id': 'Str'}, modifies=['fresh', 'FSYS.final_has'])
 for _m, _a in (('write_env', 'envelope'), ('write_meta', 'meta')):
     contract('DiskOps.%s#raises' % _m, qual='DiskOps.' + _m, module=M, props=['C04'], yields=True,
              params={'self': 'DiskOps', 'id': 'Str', _a: 'Any'}, raises={'OSError': []}, modifies=['fresh'])
